@@ -94,9 +94,20 @@ func RandShuffle(n int, swap func(i, j int)) {
 // ---- canonical, address-free dump with sharing structure ----
 
 type dumper struct {
-	sb   strings.Builder
-	ids  map[uintptr]int
-	next int
+	sb    strings.Builder
+	ids   map[uintptr]int
+	next  int
+	tree  bool             // unfold shared pointers (tree equality) instead of labelling them
+	stack map[uintptr]bool // pointers on the current path (cycle guard in tree mode)
+}
+
+// DumpTree renders v as a tree: shared sub-structures are unfolded at every
+// occurrence (two dumps are equal iff the values are equal node for node,
+// whether or not they share memory); a pointer cycle is cut with a marker.
+func DumpTree(v interface{}) string {
+	d := &dumper{ids: map[uintptr]int{}, tree: true, stack: map[uintptr]bool{}}
+	d.dump(reflect.ValueOf(v), 0)
+	return d.sb.String()
 }
 
 // Dump renders v deeply. Pointers to structs are numbered in traversal order;
@@ -122,6 +133,18 @@ func (d *dumper) dump(v reflect.Value, depth int) {
 	case reflect.Ptr:
 		if v.IsNil() {
 			d.sb.WriteString("nil")
+			return
+		}
+		if d.tree {
+			p := v.Pointer()
+			if d.stack[p] {
+				d.sb.WriteString("<cycle>")
+				return
+			}
+			d.stack[p] = true
+			d.sb.WriteString("&")
+			d.dump(v.Elem(), depth+1)
+			delete(d.stack, p)
 			return
 		}
 		if v.Elem().Kind() == reflect.Struct {
@@ -202,7 +225,7 @@ func (d *dumper) dump(v reflect.Value, depth int) {
 }
 
 // TapDump records the canonical dump of v.
-func TapDump(name string, v interface{}) { Tap(name, Dump(v)) }
+func TapDump(name string, v interface{}) { Tap(name, DumpTree(v)) }
 
 // TapFeed records one FileManager.Feed call (source and submitted items).
 func TapFeed(src string, files interface{}) {
